@@ -131,6 +131,14 @@ func (i *interpreter) reflTypeMethod(rt reflType, name string) nativeFn {
 			}
 		case "String":
 			return rt.t.String()
+		case "NumField":
+			return reflStructOf(rt.t).NumFields()
+		case "Field":
+			k, ok := a[0].(int)
+			if !ok || k < 0 || k >= reflStructOf(rt.t).NumFields() {
+				panic(abort(abUnsupported, "reflect.Type.Field with a symbolic or out-of-range index"))
+			}
+			return i.reflStructField(rt.t, k)
 		}
 		panic(abort(abUnsupported, "reflect.Type."+name+" is outside the bridged subset"))
 	}
@@ -194,3 +202,122 @@ func init() {
 }
 
 var _ = (*ssa.Function)(nil)
+
+// ---- read-only value inspection (enough for code that walks a struct and formats its fields)
+
+func reflStructOf(t types.Type) *types.Struct {
+	st, ok := t.Underlying().(*types.Struct)
+	if !ok {
+		panic(abort(abUnsupported, "reflect: not a struct: "+t.String()))
+	}
+	return st
+}
+
+// reflStructField builds the reflect.StructField value for field k of struct type t.
+func (i *interpreter) reflStructField(t types.Type, k int) value {
+	st := reflStructOf(t)
+	f := st.Field(k)
+	pkgPath := ""
+	if !f.Exported() && f.Pkg() != nil {
+		pkgPath = f.Pkg().Path()
+	}
+	// field order of reflect.StructField: Name, PkgPath, Type, Tag, Offset, Index, Anonymous
+	return structure{f.Name(), pkgPath, i.reflTypeIface(f.Type()), st.Tag(k), uintptr(0), []value{k}, f.Embedded()}
+}
+
+func init() {
+	externals["(reflect.StructField).IsExported"] = func(fr *frame, a []value) value {
+		sf := a[0].(structure)
+		s, ok := goString(sf[1])
+		if !ok {
+			panic(abort(abUnsupported, "reflect.StructField with a symbolic PkgPath"))
+		}
+		return s == ""
+	}
+	tagGet := func(fr *frame, a []value) value {
+		tag, ok := goString(a[0])
+		key, ok2 := goString(a[1])
+		if !ok || !ok2 {
+			panic(abort(abUnsupported, "reflect.StructTag with symbolic text"))
+		}
+		v, found := reflect.StructTag(tag).Lookup(key)
+		if fr.fn.Name() == "Lookup" {
+			return tuple{v, found}
+		}
+		return v
+	}
+	externals["(reflect.StructTag).Get"] = tagGet
+	externals["(reflect.StructTag).Lookup"] = tagGet
+	externals["(reflect.Value).NumField"] = func(fr *frame, a []value) value {
+		return reflStructOf(reflVal(a[0]).t).NumFields()
+	}
+	externals["(reflect.Value).Field"] = func(fr *frame, a []value) value {
+		rv := reflVal(a[0])
+		st := reflStructOf(rv.t)
+		k, ok := a[1].(int)
+		if !ok || k < 0 || k >= st.NumFields() {
+			panic(abort(abUnsupported, "reflect.Value.Field with a symbolic or out-of-range index"))
+		}
+		return nativeObj{reflValue{st.Field(k).Type(), rv.v.(structure)[k]}}
+	}
+	scalar := func(name string, want func(*types.Basic) bool, conv func(fr *frame, t types.Type, v value) value) {
+		externals["(reflect.Value)."+name] = func(fr *frame, a []value) value {
+			rv := reflVal(a[0])
+			b, ok := rv.t.Underlying().(*types.Basic)
+			if !ok || !want(b) {
+				panic(abort(abUnsupported, "reflect.Value."+name+" of "+rv.t.String()))
+			}
+			return conv(fr, rv.t, rv.v)
+		}
+	}
+	scalar("Int", func(b *types.Basic) bool { return b.Info()&types.IsInteger != 0 && b.Info()&types.IsUnsigned == 0 },
+		func(fr *frame, t types.Type, v value) value { return fr.conv(types.Typ[types.Int64], t, v) })
+	scalar("Uint", func(b *types.Basic) bool { return b.Info()&types.IsUnsigned != 0 },
+		func(fr *frame, t types.Type, v value) value { return fr.conv(types.Typ[types.Uint64], t, v) })
+	scalar("Float", func(b *types.Basic) bool { return b.Info()&types.IsFloat != 0 },
+		func(fr *frame, t types.Type, v value) value { return fr.conv(types.Typ[types.Float64], t, v) })
+	scalar("Bool", func(b *types.Basic) bool { return b.Kind() == types.Bool },
+		func(fr *frame, t types.Type, v value) value { return v })
+	externals["(reflect.Value).String"] = func(fr *frame, a []value) value {
+		rv := reflVal(a[0])
+		if b, ok := rv.t.Underlying().(*types.Basic); ok && b.Kind() == types.String {
+			return rv.v
+		}
+		panic(abort(abUnsupported, "reflect.Value.String of "+rv.t.String()))
+	}
+	externals["(reflect.Value).Len"] = func(fr *frame, a []value) value {
+		rv := reflVal(a[0])
+		switch x := rv.v.(type) {
+		case []value:
+			return len(x)
+		case array:
+			return len(x)
+		case string:
+			return len(x)
+		case symstr:
+			return len(x.c)
+		}
+		panic(abort(abUnsupported, "reflect.Value.Len of "+rv.t.String()))
+	}
+	externals["(reflect.Value).Index"] = func(fr *frame, a []value) value {
+		rv := reflVal(a[0])
+		k, ok := a[1].(int)
+		if !ok {
+			panic(abort(abUnsupported, "reflect.Value.Index with a symbolic index"))
+		}
+		et := reflElem(rv.t)
+		switch x := rv.v.(type) {
+		case []value:
+			if k < 0 || k >= len(x) {
+				panic(targetPanic{fr.i.runtimeError("reflect: slice index out of range")})
+			}
+			return nativeObj{reflValue{et, fr.i.loadCell(et, &x[k])}}
+		case array:
+			if k < 0 || k >= len(x) {
+				panic(targetPanic{fr.i.runtimeError("reflect: array index out of range")})
+			}
+			return nativeObj{reflValue{et, x[k]}}
+		}
+		panic(abort(abUnsupported, "reflect.Value.Index of "+rv.t.String()))
+	}
+}
